@@ -80,7 +80,7 @@ func init() { harness.Register(Prop{}) }
 func (Prop) ID() string { return "C13" }
 
 var allKinds = []string{"Define", "DefineDot", "Set", "Get", "Delete", "DeleteGlobal", "DefineType", "Type",
-	"ValueSymbols", "TypeSymbols", "Copy", "DeepCopy", "String", "Addr", "NewModule", "EnvFromPath", "DefineGlobal", "EnvFromPath2", "CopyMut", "DeepCopyMut", "DeleteK"}
+	"ValueSymbols", "TypeSymbols", "Copy", "DeepCopy", "String", "Addr", "NewModule", "EnvFromPath", "DefineGlobal", "EnvFromPath2", "CopyMut", "DeepCopyMut", "DeleteK", "SetLookup", "ClearLookup"}
 
 func (Prop) Gen(seed int64, tier string) *harness.Case {
 	r := harness.Rand(seed)
@@ -153,7 +153,12 @@ func (Prop) Gen(seed int64, tier string) *harness.Case {
 				op.Via = ""
 			case "Get", "Addr":
 				names := append([]string{"s", "p0", "m", "zz"}, valNames...)
+				if enabled["SetLookup"] {
+					names = append(names, lookupName, lookupName)
+				}
 				op.Name = names[r.Intn(len(names))]
+			case "SetLookup", "ClearLookup":
+				op.Via = ""
 			case "Set", "DefineGlobal":
 				op.Name = valNames[r.Intn(len(valNames))]
 			case "DeleteGlobal":
@@ -258,7 +263,33 @@ func (Prop) Gen(seed int64, tier string) *harness.Case {
 type state struct {
 	vals  map[string]int
 	types map[string]int
+	// lookup: which external lookup S has installed (0 = none). Lookup k resolves the one name lookupName to the
+	// value lookupBase+k and nothing else; it is consulted after S's own table and before P.
+	lookup int
 }
+
+const (
+	lookupName = "xl"
+	lookupBase = 500000
+)
+
+// stubLookup is the external lookup the SetLookup operation installs.
+type stubLookup struct{ v reflect.Value }
+
+func (l *stubLookup) Get(symbol string) (reflect.Value, error) {
+	if symbol == lookupName {
+		return l.v, nil
+	}
+	return env.NilValue, fmt.Errorf("lookup: no value %s", symbol)
+}
+
+func (l *stubLookup) Type(symbol string) (reflect.Type, error) {
+	return env.NilType, fmt.Errorf("lookup: no type %s", symbol)
+}
+
+// encodeState is the model's state: what encode shows (the tables, which is also what a copy or a listing returns)
+// plus the installed lookup.
+func encodeState(st state) string { return encode(st) + "|" + strconv.Itoa(st.lookup) }
 
 func encode(st state) string {
 	var ks []string
@@ -275,8 +306,12 @@ func encode(st state) string {
 }
 
 func decode(s string) state {
-	st := state{map[string]int{}, map[string]int{}}
-	parts := strings.SplitN(s, "|", 2)
+	st := state{vals: map[string]int{}, types: map[string]int{}}
+	parts := strings.SplitN(s, "|", 3)
+	if len(parts) == 3 {
+		st.lookup, _ = strconv.Atoi(parts[2])
+		parts = parts[:2]
+	}
 	for i, p := range parts {
 		if p == "" {
 			continue
@@ -325,9 +360,18 @@ func apply(st state, op Op, rooted bool) (state, Out) {
 			return st, Out{}
 		}
 		return st, Out{Err: "undef"}
+	case "SetLookup":
+		st.lookup = op.Val
+		return st, Out{}
+	case "ClearLookup":
+		st.lookup = 0
+		return st, Out{}
 	case "Get":
 		if v, ok := st.vals[op.Name]; ok {
 			return st, Out{Val: v}
+		}
+		if op.Name == lookupName && st.lookup != 0 {
+			return st, Out{Val: lookupBase + st.lookup}
 		}
 		if v, ok := pv[op.Name]; ok {
 			return st, Out{Val: v}
@@ -339,6 +383,9 @@ func apply(st state, op Op, rooted bool) (state, Out) {
 				return st, Out{Err: "unaddr"}
 			}
 			return st, Out{Val: v}
+		}
+		if op.Name == lookupName && st.lookup != 0 {
+			return st, Out{Val: lookupBase + st.lookup}
 		}
 		if v, ok := pv[op.Name]; ok {
 			return st, Out{Val: v}
@@ -401,7 +448,7 @@ var model = porcupine.Model{
 		st := decode(s.(string))
 		mi := in.(modelInput)
 		ns, want := apply(st, mi.Op, mi.Rooted)
-		return want == out.(Out), encode(ns)
+		return want == out.(Out), encodeState(ns)
 	},
 	DescribeOperation: func(in, out interface{}) string {
 		return fmt.Sprintf("%+v -> %+v", in.(modelInput).Op, out.(Out))
@@ -500,6 +547,10 @@ func (r *runner) exec(rc *rec) {
 		rc.out.Err = errClass(e.DefineValue(op.Name, newVal(op.Val)))
 	case "DefineGlobal":
 		rc.out.Err = errClass(e.DefineGlobalValue(op.Name, newVal(op.Val)))
+	case "SetLookup":
+		e.SetExternalLookup(&stubLookup{newVal(lookupBase + op.Val)})
+	case "ClearLookup":
+		e.SetExternalLookup(nil)
 	case "DefineDot":
 		rc.out.Err = errClass(e.DefineValue("a.b", newVal(op.Val)))
 	case "NewModule":
@@ -589,7 +640,7 @@ func (r *runner) finalize(rc *rec) string {
 		rc.out.Val = id
 	}
 	if rc.rawSnap != nil || rc.op.Kind == "Copy" || rc.op.Kind == "DeepCopy" || rc.op.Kind == "ReadAll" || rc.op.Kind == "CopyMut" || rc.op.Kind == "DeepCopyMut" {
-		st := state{map[string]int{}, map[string]int{}}
+		st := state{vals: map[string]int{}, types: map[string]int{}}
 		for k, v := range rc.rawSnap {
 			id, ok := r.resolve(v)
 			if !ok {
@@ -604,7 +655,7 @@ func (r *runner) finalize(rc *rec) string {
 	}
 	if rc.op.Kind == "String" {
 		// "Has parent\n" / "No parent\n", then "name = value" lines for values and "name = type" for types
-		st := state{map[string]int{}, map[string]int{}}
+		st := state{vals: map[string]int{}, types: map[string]int{}}
 		lines := strings.Split(strings.TrimSpace(rc.out.Str), "\n")
 		recognised := len(lines) > 0
 		for _, ln := range lines[1:] {
@@ -762,7 +813,7 @@ func (r *runner) judge(wp *Work, final *rec, res *harness.Result, verbose bool) 
 		hist = append(hist, fmt.Sprintf("c%d [%d,%d] %+v -> %+v", rc.client, rc.call, rc.ret, rc.op, rc.out))
 	}
 	m := model
-	init := encode(initState(&w))
+	init := encodeState(initState(&w))
 	m.Init = func() interface{} { return init }
 	m.Step = func(s, in, out interface{}) (bool, interface{}) {
 		st := decode(s.(string))
@@ -779,12 +830,12 @@ func (r *runner) judge(wp *Work, final *rec, res *harness.Result, verbose bool) 
 		ns, want := apply(st, mi.Op, mi.Rooted)
 		if mi.Op.Kind == "Addr" && out.(Out).Err != "" && out.(Out).Err != "undef" {
 			// when Addr refuses (unaddressable values) is not specified by the property
-			return true, encode(ns)
+			return true, encodeState(ns)
 		}
 		if mi.Op.Kind == "Addr" && want.Err == "unaddr" {
-			return true, encode(ns)
+			return true, encodeState(ns)
 		}
-		return want == out.(Out), encode(ns)
+		return want == out.(Out), encodeState(ns)
 	}
 	cr := porcupine.CheckOperationsTimeout(m, ops, 30*time.Second)
 	res.Counters["history_ops"] = len(ops)
@@ -845,7 +896,7 @@ func initState(w *Work) state {
 	if w.Child && w.KMod {
 		vals[kModName] = kModID
 	}
-	return state{vals, w.STypes}
+	return state{vals: vals, types: w.STypes}
 }
 
 // RunReal runs the workload of c on real goroutines with no scheduler: the
